@@ -15,7 +15,7 @@
     Both end the sender's task; they differ in what the entrypoint still runs (C17/C18) and in
     how a held server is given back (see [eff]).
 
-    Source: /repo/src at the commit the check runs against (file:line are those of fc66d7a). *)
+    Source: /repo/src at the commit the check runs against (file:line are those of 016496c; a7561f2 reads Parse's query text raw instead of lossy: same Ok/Panic classification). *)
 From Coq Require Import ZArith NArith List Bool Lia.
 Import ListNotations.
 Local Open Scope Z_scope.
@@ -526,6 +526,11 @@ Definition txn_msg (o : opts) (copy ext intx : bool) (c : cstate) (pre : list ef
                        | BPanic => dropped HPanic
                        end in
   if (code =? 81)%N then                                                   (* 'Q' *)
+    if copy then
+      (* a Query while the server is in COPY mode (client.rs:1296-1307, 016496c): the server may already have ended
+         the COPY with an error nobody read, its answers could not be told apart: mark_bad, terminal error, Err *)
+      SDone (NEnd HErr) (pre ++ [FxReply RErrOnly; FxDropHeld]) [] obs rest
+    else
     match (if o_parser o && negb first then router_parse_prefix (o_maxlen o) code len body else Err) with
     | Panic => dropped HPanic
     | _ => forward pre intx c held obs rest
